@@ -39,7 +39,36 @@ func c01One(o *out, text string, want influxql.Statement, kind string) {
 	}
 }
 
+// c01RegexBackslash: a regular expression whose pattern ends in an escaped backslash (the two characters \\, which
+// match one backslash) is written /...\\/ - a legal spelling.  ScanDelimited passes the first backslash through and then
+// takes the second together with the closing slash for an escaped slash, so the literal never ends (known finding).
+func c01RegexBackslash(o *out) {
+	for _, c := range []struct{ text, first string }{
+		{"SELECT a FROM m WHERE p =~ /a\\\\/", "a\\\\"},
+		{"SELECT a FROM m WHERE p =~ /a\\\\/ AND q =~ /x/", "a\\\\"},
+		{"SELECT a FROM m WHERE p !~ /\\\\/", "\\\\"},
+		{"SELECT a FROM /^c:\\\\/", "^c:\\\\"},
+		{"SELECT a FROM m WHERE p =~ /a\\\\b/", "a\\\\b"}, // not at the end: fine today
+	} {
+		o.count("regex-trailing-backslash")
+		o.checked()
+		st, err := influxql.ParseStatement(c.text)
+		got := ""
+		if err == nil {
+			influxql.WalkFunc(st, func(n influxql.Node) {
+				if r, ok := n.(*influxql.RegexLiteral); ok && got == "" && r.Val != nil {
+					got = r.Val.String()
+				}
+			})
+		}
+		if err != nil || got != c.first {
+			o.fail("C01-regex-trailing-backslash", fmt.Sprintf("%q: expected the regular expression %q, got %q (%v)", c.text, c.first, got, err), map[string]interface{}{"op": "regex_backslash", "text": c.text})
+		}
+	}
+}
+
 func propC01(o *out, r *rng, thorough bool) {
+	c01RegexBackslash(o)
 	per := 120
 	if thorough {
 		per = 12000
